@@ -50,10 +50,14 @@ class Inject:
         self.core._solver_helper = self.orig
 
 
-def run_impl(wntr, spec, fail, backup, conv_err, trials=None, times_cb=None):
+def run_impl(wntr, spec, fail, backup, conv_err, trials=None, times_cb=None, unbalanced=None):
     wn = netgen.build(spec, wntr)
     if trials is not None:
         wn.options.hydraulic.trials = trials
+    if unbalanced is not None:
+        # EPANET's "UNBALANCED CONTINUE n" is an option of the other engine: WNTRSimulator's runs still stop at a step they cannot solve
+        wn.options.hydraulic.unbalanced = "CONTINUE"
+        wn.options.hydraulic.unbalanced_value = unbalanced
     sim = wntr.sim.WNTRSimulator(wn)
     call_times = []
     inj = Inject(wntr, fail)
@@ -169,9 +173,17 @@ def check(run, replay=None):
             fault_specs.append((fl, backup, rng.random() < 0.5, None))
         if max_solves > 1:
             fault_specs.append(([], False, rng.random() < 0.5, max_solves - 2))     # trial limit exceeded
-        for fl, backup, conv_err, trials in fault_specs:
+        if max_solves > 1:
+            fault_specs.append(([], False, False, max_solves - 2))     # ... with convergence_error=False and UNBALANCED CONTINUE set (below)
+        for fi, (fl, backup, conv_err, trials) in enumerate(fault_specs):
+            unb = None
+            if fi == len(fault_specs) - 1 and max_solves > 1:
+                unb = rng.choice([0, 0, 1, 5])
+                run.count("unbalanced_continue_set")
+            elif rng.random() < 0.3:
+                unb = 0
             try:
-                wn2, res2, err2, warned2, calls2 = run_impl(wntr, spec, fl, backup, conv_err, trials)
+                wn2, res2, err2, warned2, calls2 = run_impl(wntr, spec, fl, backup, conv_err, trials, unbalanced=unb)
             except Exception as e:
                 run.violation("faulty_run_crashed", "run with an injected solver failure raised %s" % e, input={"spec": spec, "fail": fl})
                 continue
